@@ -32,6 +32,12 @@ def run(ctx):
                             constants={"HW": 3, "MaxText": 2, "MaxDigits": 4, "Widths": "{2, 3}", "Free": 4},
                             coverage=True, timeout=2400, label="HexText HW=3")
         ctx.check_coverage(r, ["Type", "Parse", "Digit", "Sign", "Present"])
+    #    JSON forms of byte strings / flags and the validator rules that guard them (HexJson.tla)
+    hs = ctx.pick(4, 5)
+    r = ctx.model_check("codec", "MC_HexJson", "MC_HexJson.cfg",
+                        constants={"HL": 1, "MaxStr": hs, "FreeLen": hs, "Dev": hs}, coverage=True,
+                        timeout=ctx.pick(400, 2400), label="HexJson HL=1")
+    ctx.check_coverage(r, ["Type", "Judge", "MarshalB"])
     ctx.exhaustive = True
 
     # 2. cases for the real code (W = 8 / HW = 4 instance): int64/uint64 are N = 8 bytes, inputs up to 10 bytes
@@ -40,7 +46,10 @@ def run(ctx):
         beh = rp["detail"]["behaviour"]
         ie = [beh] if rp["key"].startswith("intenc:") else []
         ht = [beh] if rp["key"].startswith("hextext:") else []
+        hj = [beh] if rp["key"].startswith("hexjson:") else []
     else:
+        hj = ctx.behaviours("codec", "Gen_HexJson", "Gen_HexJson.cfg",
+                            constants={"HL": 32, "MaxStr": 68, "FreeLen": ctx.pick(3, 4), "Dev": 1}, timeout=1800)
         ie = ctx.behaviours("codec", "Gen_IntEnc", "Gen_IntEnc.cfg",
                             constants={"W": 2, "MaxLen": 40, "N": 8, "Free": ctx.pick(1, 3), "Cap": 10}, timeout=1800)
         ht = ctx.behaviours("codec", "Gen_HexText", "Gen_HexText.cfg",
@@ -55,14 +64,22 @@ def run(ctx):
         inp = ctx.path("in", "hextext.ndjson")
         _write(inp, ht)
         ctx.absorb(ctx.go_replay("intenc", "TestReplayText", inp))
-    for b in ie[len(ie) // 2:len(ie) // 2 + 2] + ht[-2:] + ht[:1]:
+    if hj:
+        inp = ctx.path("in", "hexjson.ndjson")
+        _write(inp, hj)
+        ctx.absorb(ctx.go_replay("intenc", "TestReplayHexJson", inp))
+    th = [b for b in hj if b[0].get("thash")]
+    for b in ie[len(ie) // 2:len(ie) // 2 + 2] + ht[-2:] + ht[:1] + th[:1]:
         ctx.sample(b)
     return ctx.finish(
         rule="a case = one TLC-generated behaviour: (a) a byte string over the classes {00, 01-7f, 80-fe, ff} "
              "(all strings whose first digits are free and whose tail repeats/fills, up to 10 bytes; big integers "
              "up to 40 bytes = 320 bits) given to one of the 5 decoders followed by every applicable encoder and the decoders again; (b) a candidate text "
              "over 16 character classes (all strings up to the bound) given to ParseBigInt; (c) a signed hex-digit "
-             "number presented in big/int16..64/uint16..64. Each case is concretized 3 (quick) / 5-6 (thorough) "
+             "number presented in big/int16..64/uint16..64; (d) a candidate text over 10 character classes (all up "
+             "to 3/4 characters, texts of 64..68 characters with at most one character off the canonical hash "
+             "pattern) given to HexBytes/RawHexBytes/HexHash/HexBool, jsonrpc.HexBytes/HexInt and the validator "
+             "rules t_hash/t_rhash/t_bool/t_int, and byte strings written by the three byte types. Each case is concretized 3 (quick) / 5-6 (thorough) "
              "times (class boundaries + seeded random). Distinct by decoder+class string / text / number+type; "
              "non-trivial if the input is not empty",
         assumptions=["digit classes are exact for the code's decisions (checked by TLC against arithmetic only "
